@@ -1,5 +1,5 @@
 (* C01 Dispatch: a route is chosen iff one admits the path, by the documented priority. *)
-Require Import Base Regex RegexProofs Route Tree TreeProofs TreeWf TreeAdd TreeComplete TreeDispatch Router RouterProofs RouteSpec Parser GoodParsed TreeKeys TreeLive TreePriority TreeOrdered TreeCands TreePriorityTop.
+Require Import Base Regex RegexProofs Route Tree TreeProofs TreeWf TreeAdd TreeComplete TreeDispatch Router RouterProofs RouteSpec Parser GoodParsed TreeKeys TreeLive TreePriority TreeOrdered TreeCands TreePriorityTop RouterPriority.
 
 (* Proved (soundness half of "iff", for every tree whatsoever, every path, every header predicate):
    whatever the matcher returns is a registered root-to-leaf path of the tree that admits the
@@ -120,6 +120,22 @@ Proof.
   intros rid X. apply A in X as (k & Hk). rewrite B in Hk. destruct Hk.
 Qed.
 
+(* ... and at the router: in every state reachable by registrations (for distinct methods each) and Headers()
+   calls, what is served for a known method is the match of least key among all matches of the routes
+   registered for that method whose header constraints hold for this request; not-found only if none *)
+Theorem C01_router_priority : forall compile (good : list elem -> Prop),
+  good [] -> (forall a b, good a -> good b -> render_elems a = render_elems b -> a = b) ->
+  forall st mi path hdrs, reachable_p compile good st ->
+  forall t, nth_error (trees st) mi = Some t ->
+  let hok := hdr_ok st hdrs in let segs := segs_of path in
+  (forall rid, (exists k, In (k, rid) (cands hok t segs [])) <->
+     exists r l ks ps, In (rid, r) (mroutes st mi) /\ forms compile r = Some l /\ In ks l /\ adm ks segs ps /\ hok rid = true) /\
+  match serve_tree st (Some mi) path hdrs with
+  | Found rid _ => exists k, In (k, rid) (cands hok t segs []) /\ forall c, In c (cands hok t segs []) -> key_le k (fst c)
+  | NotFound => cands hok t segs [] = []
+  end.
+Proof. intros compile good G0 Inj. exact (router_priority compile good G0 Inj). Qed.
+
 (* what "birth" is: the least id among the routes registered below *)
 Theorem C01_birth_is_least_id : forall t, kpaths t <> [] ->
   In (minrid t) (rids t) /\ forall r, In r (rids t) -> minrid t <= r.
@@ -152,6 +168,7 @@ Proof. vm_compute. split; reflexivity. Qed.
 Redirect "assum/C01.9" Print Assumptions C01_dispatch_iff_parsed.
 Redirect "assum/C01.10" Print Assumptions C01_priority.
 Redirect "assum/C01.11" Print Assumptions C01_priority_parsed.
+Redirect "assum/C01.12" Print Assumptions C01_router_priority.
 Redirect "assum/C01.1" Print Assumptions C01_dispatch_sound.
 Redirect "assum/C01.2" Print Assumptions C01_serve_sound.
 Redirect "assum/C01.3" Print Assumptions C01_regex_exact.
